@@ -18,7 +18,7 @@ RULE = ("seeded (sequence, numerator 1-16, denominator in {1,2,4,8,16}, key) com
         "constructions are counted as separate classes; non-trivial = any of those three reached with notes present "
         "or a signature event present.")
 PLAN = {"quick": {"cases": 6000, "jobs": 4, "timeout": 600},
-        "thorough": {"cases": 300000, "jobs": 16, "timeout": 3000, "budget_s": 420}}
+        "thorough": {"cases": 2000000, "jobs": 16, "timeout": 3000, "budget_s": 360}}
 FLOORS = {"quick": {"bar_inv.duration.armed": 4000, "c10.rejected_overlong": 500, "c10.padded": 800, "c10.exact": 300,
                     "c10.rejected_signature": 400, "c10.copy_checked": 1500},
           "thorough": {"bar_inv.duration.armed": 100000, "c10.rejected_overlong": 10000}}
